@@ -1,8 +1,9 @@
 //! Bounded stand-in for the e-graph level clause of C08 (histories of add / union / rewriting) — NOT a proof.
 //! host: src/egraph/mod.rs
+//! functions: EGraph::union apply_rewrites
 //! also-with-features: checks
 //! Bound: `EGraph::union`: 600 (deep: 6000) pseudo-random histories of 6 insertions (terms of depth ≤ 2 over
-//! var, mul/2, f3/3, f4/4, g/1, lam, 5 slot names) and 8 unions between the inserted terms, plus 12 hand-written histories
+//! var, mul/2, f3/3, f4/4, g/1, lam, 5 slot names) and 8 unions between the inserted terms, plus 14 hand-written histories
 //! (symmetry then redundancy, a class equated with a term that contains it, redundancy under a binder);
 //! `apply_rewrites`: 13 terms × 12 rule sets × 3 rounds and 5 terms × 10 one-rule-per-round sequences (native substitution,
 //! let-introduction, rules under binders, after a redundancy or symmetry was established).  After EVERY operation: the built-in `EGraph::check`, every
@@ -101,6 +102,9 @@ fn hand_written() -> Vec<(Vec<&'static str>, Vec<(usize, usize)>)> {
         (vec!["(g (mul (var $1) (var $2)))", "(mul (var $3) (var $1))"], vec![(0, 1)]),
         (vec!["(g (g (f4 (var $1) (var $2) (var $3) (var $4))))", "(f4 (var $4) (var $1) (var $2) (var $3))"], vec![(0, 1)]),
         (vec!["(mul (var $1) (g (var $1)))", "(var $1)"], vec![(0, 1)]),
+        // an e-node with a slot that is redundant in its class, over a child that then becomes symmetric (F14)
+        (vec!["(g (mul (var $1) (var $2)))", "(g (mul (var $1) (var $3)))", "(mul (var $1) (var $2))", "(mul (var $2) (var $1))"], vec![(0, 1), (2, 3)]),
+        (vec!["(g (f3 (var $1) (var $2) (var $3)))", "(g (f3 (var $1) (var $2) (var $9)))", "(f3 (var $1) (var $2) (var $3))", "(f3 (var $2) (var $3) (var $1))"], vec![(0, 1), (2, 3)]),
         // redundancy under a binder
         (vec!["(lam $1 (mul (var $1) (var $2)))", "(lam $1 (mul (var $1) (var $3)))"], vec![(0, 1)]),
         (vec!["(lam $1 (f3 (var $1) (var $2) (var $3)))", "(lam $1 (f3 (var $1) (var $3) (var $2)))", "(lam $1 (f3 (var $1) (var $2) (var $8)))"], vec![(0, 1), (0, 2)]),
